@@ -1,21 +1,555 @@
 import Abyss.Inv
 import Abyss.Lemmas.AllocL
 import Abyss.Lemmas.ChainL
+import Abyss.Lemmas.Vu64L
+import Mathlib.Data.List.Nodup
 /-!
 # `relink_moved_key_piece` repairs a chain that was cut by the relocation of a key record
+
+The helper lemmas live in the namespace `Abyss.Store.Relink`; the statements other files use
+(`keyNeed_legal`, `valueNeed_legal`, `headOf_writeHead`, `bitOf_writeHead`, `relink_spec`) are in
+`Abyss.Store`.
 -/
 namespace Abyss
 namespace Store
+namespace Relink
+
+/-- lookup after `upsert` -/
+theorem aget_upsert {β : Type} (l : List (Nat × β)) (k : Nat) (v : β) (k' : Nat) :
+    aget (upsert l k v) k' = if k' = k then some v else aget l k' := by
+  induction l with
+  | nil =>
+    simp only [upsert, aget]
+    by_cases h : k = k'
+    · subst h; simp
+    · have : ¬ k' = k := fun e => h e.symm
+      simp [h, this]
+  | cons hd tl ih =>
+    obtain ⟨a, w⟩ := hd
+    simp only [upsert]
+    by_cases hak : a = k
+    · subst hak
+      simp only [if_true, aget]
+      by_cases h : a = k'
+      · subst h; simp
+      · have : ¬ k' = a := fun e => h e.symm
+        simp [h, this]
+    · simp only [hak, if_false, aget, ih]
+      by_cases h : a = k'
+      · subst h; simp [hak]
+      · simp [h]
+
+end Relink
+open Relink
 
 /-- the slot size requested for a key record / a value is one `roundup` produces -/
-theorem keyNeed_legal (r : KeyRec) : LegalSz keyCfg (keyNeed r) := by sorry
-theorem valueNeed_legal (len : Nat) : LegalSz valCfg (valueNeed len) := by sorry
+theorem keyNeed_legal (r : KeyRec) : LegalSz keyCfg (keyNeed r) := by
+  unfold keyNeed Gen.keyEncodedPieceSize
+  apply keyCfg_ok.roundup_legal
+  have := Vu64.encodedLen_pos ((Vu64.encodedLen (r.key.length % 2^32) + r.key.length % 2^32 + Vu64.encodedLen r.valOff + Vu64.encodedLen r.next + 7) / 8)
+  show 1 ≤ _ + _
+  omega
+
+theorem valueNeed_legal (len : Nat) : LegalSz valCfg (valueNeed len) := by
+  unfold valueNeed Gen.valueEncodedPieceSize
+  apply valCfg_ok.roundup_legal
+  have := Vu64.encodedLen_pos ((Vu64.encodedLen (len % 2^32) + len % 2^32 + 7) / 8)
+  show 1 ≤ _ + _
+  omega
 
 /-- `writeHead` changes one bucket entry and its bitmap bit, nothing else -/
 theorem headOf_writeHead (s : Store) (b off b' : Nat) :
-    (s.writeHead b off).headOf b' = if b' = b then off else s.headOf b' := by sorry
+    (s.writeHead b off).headOf b' = if b' = b then off else s.headOf b' := by
+  unfold headOf writeHead
+  simp only [aget_upsert]
+  split <;> simp
+
 theorem bitOf_writeHead (s : Store) (b off b' : Nat) :
-    (s.writeHead b off).bitOf b' = if b' = b then decide (off ≠ 0) else s.bitOf b' := by sorry
+    (s.writeHead b off).bitOf b' = if b' = b then decide (off ≠ 0) else s.bitOf b' := by
+  unfold bitOf writeHead
+  simp only [aget_upsert]
+  split <;> simp
+
+namespace Relink
+
+/-- `used` is the `used` case of `get` -/
+theorem used_eq_some_iff {α : Type} (f : RecFile α) (o sz : Nat) (p : α) :
+    f.used o = some (sz, p) ↔ f.get o = some (.used sz p) := by
+  unfold RecFile.used
+  split
+  · next s q h => rw [h]; simp
+  · next h =>
+    constructor
+    · intro e; cases e
+    · intro e; exact absurd e (h sz p)
+
+/-- offsets of used key records are not 0 -/
+theorem used_ne_zero {f : RecFile KeyRec} (h : RecFile.WF keyCfg f) {o sz : Nat} {r : KeyRec}
+    (hu : f.used o = some (sz, r)) : o ≠ 0 := by
+  have hb := RecFile.WF.get_bounds keyCfg_ok h ((used_eq_some_iff f o sz r).1 hu)
+  have := keyCfg_ok.hdr_pos
+  omega
+
+/-! ### link segments -/
+
+theorem segFrom_used {kf : RecFile KeyRec} {l : List (Nat × KeyRec)} {cur tgt : Nat}
+    (h : segFrom kf l cur tgt) : ∀ p ∈ l, ∃ sz, kf.used p.1 = some (sz, p.2) := by
+  induction l generalizing cur with
+  | nil => intro p hp; cases hp
+  | cons hd tl ih =>
+    obtain ⟨o, r⟩ := hd
+    obtain ⟨_, _, hu, hrest⟩ := h
+    intro p hp
+    rcases List.mem_cons.1 hp with rfl | hp
+    · exact hu
+    · exact ih hrest p hp
+
+theorem segFrom_congr {kf kf' : RecFile KeyRec} {l : List (Nat × KeyRec)} {cur tgt : Nat}
+    (h : segFrom kf l cur tgt)
+    (hs : ∀ p ∈ l, ∀ sz, kf.used p.1 = some (sz, p.2) → kf'.used p.1 = some (sz, p.2)) :
+    segFrom kf' l cur tgt := by
+  induction l generalizing cur with
+  | nil => exact h
+  | cons hd tl ih =>
+    obtain ⟨o, r⟩ := hd
+    obtain ⟨h1, h2, ⟨sz, hu⟩, hrest⟩ := h
+    exact ⟨h1, h2, ⟨sz, hs (o, r) (List.mem_cons_self ..) sz hu⟩,
+      ih hrest (fun p hp => hs p (List.mem_cons_of_mem _ hp))⟩
+
+theorem segFrom_concat {kf : RecFile KeyRec} {l : List (Nat × KeyRec)} {o : Nat} {r : KeyRec} {cur tgt : Nat} :
+    segFrom kf (l ++ [(o, r)]) cur tgt ↔
+      segFrom kf l cur o ∧ o ≠ 0 ∧ (∃ sz, kf.used o = some (sz, r)) ∧ r.next = tgt := by
+  induction l generalizing cur with
+  | nil => simp [segFrom]
+  | cons hd tl ih =>
+    obtain ⟨o1, r1⟩ := hd
+    simp only [List.cons_append, segFrom, ih, and_assoc]
+
+theorem segFrom_append {kf : RecFile KeyRec} {l l' : List (Nat × KeyRec)} {cur mid tgt : Nat}
+    (h : segFrom kf l cur mid) (h' : segFrom kf l' mid tgt) : segFrom kf (l ++ l') cur tgt := by
+  induction l generalizing cur with
+  | nil => simp only [segFrom] at h; subst h; exact h'
+  | cons hd tl ih =>
+    obtain ⟨o1, r1⟩ := hd
+    obtain ⟨h1, h2, hu, hrest⟩ := h
+    exact ⟨h1, h2, hu, ih hrest⟩
+
+/-- a duplicate-free segment that ends in 0 is the chain found with the standard fuel -/
+theorem chain_of_seg (kf : RecFile KeyRec) (L : List (Nat × KeyRec)) (cur : Nat)
+    (hseg : segFrom kf L cur 0) (hnd : (L.map (·.1)).Nodup) :
+    chainFrom kf (kf.slots.length + 1) cur = some L :=
+  chainFrom_of_seg kf cur L hseg _ (Nat.lt_succ_of_le (nodup_offsets_length kf L hnd (segFrom_used hseg)))
+
+/-- the part of the invariant that only talks about the set of used key records -/
+structure DataOK (kt : KeyType) (kf : RecFile KeyRec) (vf : RecFile (List Nat)) (count : Nat) : Prop where
+  keys_ok : ∀ o sz r, kf.used o = some (sz, r) → KeyOK kt r.key
+  keys_inj : ∀ o o' sz sz' r r', kf.used o = some (sz, r) → kf.used o' = some (sz', r') →
+            r.key = r'.key → o = o'
+  val_used : ∀ o sz r, kf.used o = some (sz, r) → ∃ vs v, vf.used r.valOff = some (vs, v)
+  val_inj : ∀ o o' sz sz' r r', kf.used o = some (sz, r) → kf.used o' = some (sz', r') →
+            r.valOff = r'.valOff → o = o'
+  val_owned : ∀ vo vs v, vf.used vo = some (vs, v) → ∃ o sz r, kf.used o = some (sz, r) ∧ r.valOff = vo
+  count_ok : count = RecFile.usedCount kf
+
+/-- `RecFile.usedCount` is the count expression of `InvX.count_ok` (the two `match`es are compiled to
+different auxiliary matchers, so this is not closed by `Iff.rfl`) -/
+theorem usedCount_eq (f : RecFile KeyRec) :
+    (f.slots.filter fun p => match p.2 with | .used _ _ => true | _ => false).length
+      = RecFile.usedCount f := by
+  unfold RecFile.usedCount
+  congr 2
+  funext p
+  obtain ⟨o, s⟩ := p
+  cases s <;> rfl
+
+theorem broken_data {kt : KeyType} {s : Store} {x b old new : Nat} {l1 l2 : List (Nat × KeyRec)}
+    (hB : Broken kt s x b old new l1 l2) : DataOK kt s.kf s.vf s.count :=
+  ⟨hB.keys_ok, hB.keys_inj, hB.val_used, hB.val_inj, hB.val_owned, hB.count_ok.trans (usedCount_eq _)⟩
+
+/-- the effect of `RecFile.rewrite` of the record `pr` at `po` by `pr'` (same key, same value
+offset), which ends up at `off'`, on the `used` view of the key file -/
+structure Rew (kf kf' : RecFile KeyRec) (po off' : Nat) (pr pr' : KeyRec) : Prop where
+  wf' : RecFile.WF keyCfg kf'
+  used_po : ∃ sz, kf.used po = some (sz, pr)
+  used_off' : ∃ sz, kf'.used off' = some (sz, pr')
+  key_eq : pr'.key = pr.key
+  val_eq : pr'.valOff = pr.valOff
+  back : ∀ o sz r, kf'.used o = some (sz, r) →
+    (o = off' ∧ r = pr') ∨ (o ≠ off' ∧ o ≠ po ∧ kf.used o = some (sz, r))
+  fwd : ∀ o sz r, kf.used o = some (sz, r) →
+    (o = po ∧ r = pr) ∨ (o ≠ po ∧ o ≠ off' ∧ kf'.used o = some (sz, r))
+  cnt : RecFile.usedCount kf' = RecFile.usedCount kf
+
+variable {kt : KeyType} {kf kf' : RecFile KeyRec} {vf : RecFile (List Nat)} {count po off' : Nat}
+  {pr pr' : KeyRec}
+
+theorem Rew.seg (R : Rew kf kf' po off' pr pr') {l : List (Nat × KeyRec)} {cur tgt : Nat}
+    (h : segFrom kf l cur tgt) (hne : ∀ p ∈ l, p.1 ≠ po) : segFrom kf' l cur tgt := by
+  refine segFrom_congr h ?_
+  intro p hp sz hu
+  rcases R.fwd _ _ _ hu with ⟨e, _⟩ | ⟨_, _, hu'⟩
+  · exact absurd e (hne p hp)
+  · exact hu'
+
+theorem DataOK.rew (h : DataOK kt kf vf count) (R : Rew kf kf' po off' pr pr') :
+    DataOK kt kf' vf count := by
+  obtain ⟨sz0, h0⟩ := R.used_po
+  obtain ⟨sz1, h1⟩ := R.used_off'
+  refine ⟨?_, ?_, ?_, ?_, ?_, ?_⟩
+  · intro o sz r hu
+    rcases R.back o sz r hu with ⟨_, e⟩ | ⟨_, _, hu0⟩
+    · rw [e, R.key_eq]; exact h.keys_ok _ _ _ h0
+    · exact h.keys_ok _ _ _ hu0
+  · intro o o' sz sz' r r' hu hu' hk
+    rcases R.back o sz r hu with ⟨e1, e2⟩ | ⟨_, hn, hu0⟩ <;>
+      rcases R.back o' sz' r' hu' with ⟨e1', e2'⟩ | ⟨_, hn', hu0'⟩
+    · rw [e1, e1']
+    · rw [e2, R.key_eq] at hk
+      exact absurd (h.keys_inj _ _ _ _ _ _ hu0' h0 hk.symm) hn'
+    · rw [e2', R.key_eq] at hk
+      exact absurd (h.keys_inj _ _ _ _ _ _ hu0 h0 hk) hn
+    · exact h.keys_inj _ _ _ _ _ _ hu0 hu0' hk
+  · intro o sz r hu
+    rcases R.back o sz r hu with ⟨_, e⟩ | ⟨_, _, hu0⟩
+    · rw [e, R.val_eq]; exact h.val_used _ _ _ h0
+    · exact h.val_used _ _ _ hu0
+  · intro o o' sz sz' r r' hu hu' hk
+    rcases R.back o sz r hu with ⟨e1, e2⟩ | ⟨_, hn, hu0⟩ <;>
+      rcases R.back o' sz' r' hu' with ⟨e1', e2'⟩ | ⟨_, hn', hu0'⟩
+    · rw [e1, e1']
+    · rw [e2, R.val_eq] at hk
+      exact absurd (h.val_inj _ _ _ _ _ _ hu0' h0 hk.symm) hn'
+    · rw [e2', R.val_eq] at hk
+      exact absurd (h.val_inj _ _ _ _ _ _ hu0 h0 hk) hn
+    · exact h.val_inj _ _ _ _ _ _ hu0 hu0' hk
+  · intro vo vs v hv
+    obtain ⟨o, sz, r, hu, e⟩ := h.val_owned vo vs v hv
+    rcases R.fwd o sz r hu with ⟨_, e2⟩ | ⟨_, _, hu'⟩
+    · exact ⟨off', sz1, pr', h1, by rw [R.val_eq, ← e2, e]⟩
+    · exact ⟨o, sz, r, hu', e⟩
+  · rw [R.cnt]; exact h.count_ok
+
+theorem Rew.hasKV (R : Rew kf kf' po off' pr pr') (s : Store) (hs : s.kf = kf) (k : List Nat) (vo : Nat) :
+    HasKV { s with kf := kf' } k vo ↔ HasKV s k vo := by
+  subst hs
+  obtain ⟨sz0, h0⟩ := R.used_po
+  obtain ⟨sz1, h1⟩ := R.used_off'
+  constructor
+  · rintro ⟨o, sz, r, hu, ek, ev⟩
+    rcases R.back o sz r hu with ⟨_, e⟩ | ⟨_, _, hu0⟩
+    · exact ⟨po, sz0, pr, h0, by rw [← R.key_eq, ← e, ek], by rw [← R.val_eq, ← e, ev]⟩
+    · exact ⟨o, sz, r, hu0, ek, ev⟩
+  · rintro ⟨o, sz, r, hu, ek, ev⟩
+    rcases R.fwd o sz r hu with ⟨_, e⟩ | ⟨_, _, hu'⟩
+    · exact ⟨off', sz1, pr', h1, by rw [R.key_eq, ← e, ek], by rw [R.val_eq, ← e, ev]⟩
+    · exact ⟨o, sz, r, hu', ek, ev⟩
+
+theorem bucketOf_lt (k : List Nat) {n : Nat} (h : 0 < n) : bucketOf k n < n := Nat.mod_lt _ h
+
+/-- `InvX` from its parts, the chain condition being given bucket `b` apart -/
+theorem invx_of_parts {kt : KeyType} {s : Store} {x b : Nat} {L : List (Nat × KeyRec)}
+    (npos : 0 < s.n) (kwf : RecFile.WF keyCfg s.kf) (vwf : RecFile.WF valCfg s.vf)
+    (heads_lt : ∀ b', s.n ≤ b' → s.headOf b' = 0)
+    (bits_ok : ∀ b', s.bitOf b' = decide (s.headOf b' ≠ 0))
+    (chains_other : ∀ b', b' < s.n → b' ≠ b → ∃ l, s.chain b' = some l ∧ (l.map (·.1)).Nodup ∧
+            ∀ p ∈ l, bucketOf p.2.key s.n = b' ∧ p.1 ≠ x)
+    (chain_b : s.chain b = some L) (nodup : (L.map (·.1)).Nodup)
+    (bucket : ∀ p ∈ L, bucketOf p.2.key s.n = b ∧ p.1 ≠ x)
+    (on_chain : ∀ o sz r, s.kf.used o = some (sz, r) → o ≠ x →
+            if bucketOf r.key s.n = b then (o, r) ∈ L
+            else ∃ l, s.chain (bucketOf r.key s.n) = some l ∧ (o, r) ∈ l)
+    (data : DataOK kt s.kf s.vf s.count) : InvX kt s x where
+  npos := npos
+  kwf := kwf
+  vwf := vwf
+  heads_lt := heads_lt
+  bits_ok := bits_ok
+  chains := by
+    intro b' hb'
+    by_cases e : b' = b
+    · subst e; exact ⟨L, chain_b, nodup, bucket⟩
+    · exact chains_other b' hb' e
+  on_chain := by
+    intro o sz r hu hx
+    have h := on_chain o sz r hu hx
+    by_cases e : bucketOf r.key s.n = b
+    · rw [if_pos e] at h; rw [e]; exact ⟨L, chain_b, h⟩
+    · rw [if_neg e] at h; exact h
+  keys_ok := data.keys_ok
+  keys_inj := data.keys_inj
+  val_used := data.val_used
+  val_inj := data.val_inj
+  val_owned := data.val_owned
+  count_ok := data.count_ok.trans (usedCount_eq _).symm
+
+theorem chain_writeHead_ne (s : Store) {b b' : Nat} (off : Nat) (h : b' ≠ b) :
+    (s.writeHead b off).chain b' = s.chain b' := by
+  unfold chain
+  rw [headOf_writeHead, if_neg h]
+  rfl
+
+theorem chain_writeHead_self (s : Store) (b off : Nat) :
+    (s.writeHead b off).chain b = chainFrom s.kf (s.kf.slots.length + 1) off := by
+  unfold chain
+  rw [headOf_writeHead, if_pos rfl]
+  rfl
+
+/-- `relink` when the stale offset is the bucket head -/
+theorem relink_nil {kt : KeyType} {s : Store} {x b old new : Nat} {l2 : List (Nat × KeyRec)}
+    (hB : Broken kt s x b old new [] l2) (fuel : Nat) :
+    ∃ s', relink b (fuel + 1) s old new = some s' ∧ InvX kt s' x ∧
+      s'.vf = s.vf ∧ s'.count = s.count ∧ s'.n = s.n ∧
+      (∀ k vo, HasKV s' k vo ↔ HasKV s k vo) ∧
+      (∀ o sz r, s.kf.used o = some (sz, r) → s'.kf.used o = some (sz, r)) := by
+  have hpred := predLoop_spec s.kf [] (s.headOf b) old 0 (s.kf.slots.length + 1) hB.seg hB.old_free.1
+    (by simp) (by simp)
+  simp only [List.getLast?_nil, Option.map_none, Option.getD_none] at hpred
+  refine ⟨s.writeHead b new, by simp [relink, hpred], ?_, rfl, rfl, rfl, fun _ _ => Iff.rfl,
+    fun _ _ _ h => h⟩
+  have hnd : (l2.map (·.1)).Nodup := by simpa using hB.nodup
+  have hbk : ∀ p ∈ l2, bucketOf p.2.key s.n = b ∧ p.1 ≠ x := by simpa using hB.bucket
+  have hd := broken_data hB
+  refine invx_of_parts (b := b) (L := l2) hB.npos hB.kwf hB.vwf ?_ ?_ ?_ ?_ hnd hbk ?_ hd
+  · intro b' hb'
+    have hb'' : s.n ≤ b' := hb'
+    rw [headOf_writeHead, if_neg (by have := hB.b_lt; show b' ≠ b; omega)]
+    exact hB.heads_lt b' hb'
+  · intro b'
+    rw [bitOf_writeHead, headOf_writeHead]
+    split
+    · rfl
+    · exact hB.bits_ok b'
+  · intro b' hb' hne
+    rw [chain_writeHead_ne s new hne]
+    exact hB.chains_other b' hb' hne
+  · rw [chain_writeHead_self]; exact hB.tail.2
+  · intro o sz r hu hx
+    have h := hB.on_chain o sz r hu hx
+    show if bucketOf r.key s.n = b then (o, r) ∈ l2
+      else ∃ l, (s.writeHead b new).chain (bucketOf r.key s.n) = some l ∧ (o, r) ∈ l
+    by_cases e : bucketOf r.key s.n = b
+    · rw [if_pos e] at h ⊢; simpa using h
+    · rw [if_neg e] at h ⊢; rw [chain_writeHead_ne s new e]; exact h
+
+variable {kt : KeyType} {s : Store} {x b old new po off' : Nat} {l1' l2 : List (Nat × KeyRec)}
+  {pr pr' : KeyRec} {kf' : RecFile KeyRec}
+
+/-- what `Broken` says when the leading segment is not empty -/
+theorem concat_facts (hB : Broken kt s x b old new (l1' ++ [(po, pr)]) l2) :
+    segFrom s.kf l1' (s.headOf b) po ∧ po ≠ 0 ∧ (∃ sz, s.kf.used po = some (sz, pr)) ∧ pr.next = old ∧
+    segFrom s.kf l2 new 0 ∧
+    (∀ p ∈ l1' ++ l2, p.1 ≠ po) ∧
+    (∀ p ∈ l1' ++ l2, ∃ sz, s.kf.used p.1 = some (sz, p.2)) ∧
+    ((l1' ++ l2).map (·.1)).Nodup ∧
+    (∀ p ∈ l1' ++ l2, bucketOf p.2.key s.n = b ∧ p.1 ≠ x) ∧
+    bucketOf pr.key s.n = b ∧ po ≠ x := by
+  obtain ⟨hs1, hpo0, hupo, hnext⟩ := segFrom_concat.1 hB.seg
+  have hs2 : segFrom s.kf l2 new 0 := chainFrom_seg _ _ _ _ hB.tail.2
+  have hnd := hB.nodup
+  simp only [List.map_append, List.append_assoc, List.map_cons,
+    List.singleton_append] at hnd
+  obtain ⟨hnotin, hnd'⟩ := List.nodup_cons.1 (List.nodup_middle.1 hnd)
+  have hbk := hB.bucket
+  refine ⟨hs1, hpo0, hupo, hnext, hs2, ?_, ?_, ?_, ?_, ?_, ?_⟩
+  · intro p hp e
+    apply hnotin
+    rw [← e, ← List.map_append]
+    exact List.mem_map_of_mem hp
+  · intro p hp
+    rcases List.mem_append.1 hp with h | h
+    · exact segFrom_used hs1 p h
+    · exact segFrom_used hs2 p h
+  · rw [List.map_append]; exact hnd'
+  · intro p hp
+    apply hbk
+    rcases List.mem_append.1 hp with h | h
+    · exact List.mem_append_left _ (List.mem_append_left _ h)
+    · exact List.mem_append_right _ h
+  · exact (hbk (po, pr) (by simp)).1
+  · exact (hbk (po, pr) (by simp)).2
+
+/-- the first half of a `relink` step: the predecessor is found and rewritten -/
+theorem relink_step (hB : Broken kt s x b old new (l1' ++ [(po, pr)]) l2) :
+    ∃ sz off' kf',
+      predLoop s.kf old (s.kf.slots.length + 1) (s.headOf b) 0 = some po ∧ po ≠ 0 ∧
+      s.kf.get po = some (.used sz pr) ∧
+      RecFile.rewrite keyCfg s.kf po (keyNeed { pr with next := new }) { pr with next := new }
+        = some (off', kf') ∧
+      Rew s.kf kf' po off' pr { pr with next := new } ∧ s.kf.slots.length ≤ kf'.slots.length ∧
+      (off' = po ∨ (off' ≠ po ∧ off' ≠ 0 ∧ s.kf.used off' = none ∧ kf'.used po = none)) := by
+  obtain ⟨hs1, hpo0, ⟨sz, hupo⟩, hnext, hs2, hnepo, hused, hnd, hbk, hbpo, hpox⟩ := concat_facts hB
+  have hused1 := segFrom_used hB.seg
+  have hpred := predLoop_spec s.kf (l1' ++ [(po, pr)]) (s.headOf b) old 0 (s.kf.slots.length + 1)
+    hB.seg hB.old_free.1
+    (by
+      intro p hp e
+      obtain ⟨sz', hu⟩ := hused1 p hp
+      rw [e, hB.old_free.2] at hu
+      cases hu)
+    (by
+      apply Nat.lt_succ_of_le
+      apply nodup_offsets_length s.kf _ _ hused1
+      have := hB.nodup
+      rw [List.map_append] at this
+      exact (List.nodup_append.1 this).1)
+  simp only [List.getLast?_concat, Option.map_some, Option.getD_some] at hpred
+  obtain ⟨off', sz', kf', hrew, hwf', hu', _, hcase, hsame, hcnt, hlen, _⟩ :=
+    RecFile.rewrite_spec keyCfg_ok hB.kwf hupo (keyNeed_legal { pr with next := new })
+      { pr with next := new }
+  refine ⟨sz, off', kf', hpred, hpo0, (used_eq_some_iff _ _ _ _).1 hupo, hrew, ?_, hlen, ?_⟩
+  · refine ⟨hwf', ⟨sz, hupo⟩, ⟨sz', hu'⟩, rfl, rfl, ?_, ?_, hcnt⟩
+    · intro o sz1 r hu
+      by_cases e1 : o = off'
+      · left
+        rw [e1, hu'] at hu
+        exact ⟨e1, by cases hu; rfl⟩
+      · right
+        have e2 : o ≠ po := by
+          intro e2
+          rcases hcase with ⟨h, _⟩ | ⟨_, _, _, h⟩
+          · exact e1 (e2.trans h.symm)
+          · rw [e2, h] at hu; cases hu
+        exact ⟨e1, e2, by rw [← hsame o e2 e1]; exact hu⟩
+    · intro o sz1 r hu
+      by_cases e1 : o = po
+      · left
+        rw [e1, hupo] at hu
+        exact ⟨e1, by cases hu; rfl⟩
+      · right
+        have e2 : o ≠ off' := by
+          intro e2
+          rcases hcase with ⟨h, _⟩ | ⟨_, _, h, _⟩
+          · exact e1 (e2.trans h)
+          · rw [e2, h] at hu; cases hu
+        exact ⟨e1, e2, by rw [hsame o e1 e2]; exact hu⟩
+  · rcases hcase with ⟨h, _⟩ | h
+    · exact Or.inl h
+    · exact Or.inr h
+
+/-- the chain of another bucket survives the rewrite -/
+theorem Rew.chain_other (R : Rew s.kf kf' po off' pr pr') {b' : Nat} {l : List (Nat × KeyRec)}
+    (hne : b' ≠ bucketOf pr.key s.n) (hl : s.chain b' = some l) (hnd : (l.map (·.1)).Nodup)
+    (hbk : ∀ p ∈ l, bucketOf p.2.key s.n = b') :
+    chain { s with kf := kf' } b' = some l := by
+  have hseg := chainFrom_seg _ _ _ _ hl
+  refine chain_of_seg kf' l _ (R.seg hseg ?_) hnd
+  intro p hp e
+  obtain ⟨sz, hu⟩ := segFrom_used hseg p hp
+  obtain ⟨sz0, h0⟩ := R.used_po
+  rw [e, h0] at hu
+  have : pr = p.2 := by cases hu; rfl
+  exact hne (by rw [this]; exact (hbk p hp).symm)
+
+/-- what survives the rewrite of the predecessor record, whether it moved or not -/
+theorem rew_common (hB : Broken kt s x b old new (l1' ++ [(po, pr)]) l2)
+    (R : Rew s.kf kf' po off' pr pr') (hoff : ∀ p ∈ l1' ++ l2, p.1 ≠ off') (hx : off' ≠ x) :
+    segFrom kf' l1' (s.headOf b) po ∧ segFrom kf' l2 new 0 ∧
+    ((l1' ++ (off', pr') :: l2).map (·.1)).Nodup ∧
+    (∀ p ∈ l1' ++ (off', pr') :: l2, bucketOf p.2.key s.n = b ∧ p.1 ≠ x) ∧
+    (∀ b', b' < s.n → b' ≠ b → ∃ l, chain { s with kf := kf' } b' = some l ∧ (l.map (·.1)).Nodup ∧
+            ∀ p ∈ l, bucketOf p.2.key s.n = b' ∧ p.1 ≠ x) ∧
+    (∀ o sz r, kf'.used o = some (sz, r) → o ≠ x →
+            if bucketOf r.key s.n = b then (o, r) ∈ l1' ++ (off', pr') :: l2
+            else ∃ l, chain { s with kf := kf' } (bucketOf r.key s.n) = some l ∧ (o, r) ∈ l) := by
+  obtain ⟨hs1, hpo0, ⟨sz, hupo⟩, hnext, hs2, hnepo, hused, hnd, hbk, hbpo, hpox⟩ := concat_facts hB
+  refine ⟨?_, ?_, ?_, ?_, ?_, ?_⟩
+  · exact R.seg hs1 (fun p hp => hnepo p (List.mem_append_left _ hp))
+  · exact R.seg hs2 (fun p hp => hnepo p (List.mem_append_right _ hp))
+  · simp only [List.map_append, List.map_cons]
+    rw [List.map_append] at hnd
+    refine List.nodup_middle.2 (List.nodup_cons.2 ⟨?_, hnd⟩)
+    intro hmem
+    rw [← List.map_append] at hmem
+    obtain ⟨p, hp, e⟩ := List.mem_map.1 hmem
+    exact hoff p hp e
+  · intro p hp
+    rcases List.mem_append.1 hp with h | h
+    · exact hbk p (List.mem_append_left _ h)
+    · rcases List.mem_cons.1 h with rfl | h
+      · exact ⟨by show bucketOf pr'.key s.n = b; rw [R.key_eq]; exact hbpo, hx⟩
+      · exact hbk p (List.mem_append_right _ h)
+  · intro b' hb' hne
+    obtain ⟨l, hl, hndl, hbkl⟩ := hB.chains_other b' hb' hne
+    exact ⟨l, R.chain_other (by rw [hbpo]; exact hne) hl hndl (fun p hp => (hbkl p hp).1), hndl, hbkl⟩
+  · intro o sz1 r hu hox
+    rcases R.back o sz1 r hu with ⟨e1, e2⟩ | ⟨e1, e2, hu0⟩
+    · rw [e2, R.key_eq, if_pos hbpo, e1]
+      exact List.mem_append_right _ (List.mem_cons_self ..)
+    · have h := hB.on_chain o sz1 r hu0 hox
+      by_cases e : bucketOf r.key s.n = b
+      · rw [if_pos e] at h ⊢
+        rcases List.mem_append.1 h with h | h
+        · rcases List.mem_append.1 h with h | h
+          · exact List.mem_append_left _ h
+          · simp only [List.mem_singleton, Prod.mk.injEq] at h
+            exact absurd h.1 e2
+        · exact List.mem_append_right _ (List.mem_cons_of_mem _ h)
+      · rw [if_neg e] at h ⊢
+        obtain ⟨l, hl, hmem⟩ := h
+        obtain ⟨l0, hl0, hndl, hbkl⟩ := hB.chains_other _ (bucketOf_lt r.key hB.npos) e
+        rw [hl] at hl0
+        cases hl0
+        exact ⟨l, R.chain_other (by rw [hbpo]; exact e) hl hndl (fun p hp => (hbkl p hp).1), hmem⟩
+
+/-- the predecessor was rewritten in place: the chain is repaired -/
+theorem invx_inplace (hB : Broken kt s x b old new (l1' ++ [(po, pr)]) l2)
+    (R : Rew s.kf kf' po po pr pr') (hnext : pr'.next = new) :
+    InvX kt { s with kf := kf' } x := by
+  obtain ⟨_, hpo0, _, _, _, hnepo, _, _, _, _, hpox⟩ := concat_facts hB
+  obtain ⟨hs1, hs2, hnd, hbk, hco, hoc⟩ := rew_common hB R hnepo hpox
+  refine invx_of_parts (b := b) (L := l1' ++ (po, pr') :: l2) hB.npos R.wf' hB.vwf hB.heads_lt
+    hB.bits_ok hco ?_ hnd hbk hoc ((broken_data hB).rew R)
+  refine chain_of_seg kf' _ _ (segFrom_append hs1 ⟨rfl, hpo0, R.used_off', ?_⟩) hnd
+  rw [hnext]; exact hs2
+
+/-- the predecessor moved: the cut is now one record closer to the bucket -/
+theorem broken_moved (hB : Broken kt s x b old new (l1' ++ [(po, pr)]) l2)
+    (R : Rew s.kf kf' po off' pr pr') (hnext : pr'.next = new)
+    (h0 : off' ≠ 0) (hfree : s.kf.used off' = none) (hfree' : kf'.used po = none) :
+    Broken kt { s with kf := kf' } x b po off' l1' ((off', pr') :: l2) := by
+  obtain ⟨_, hpo0, _, _, _, hnepo, hused, _, _, _, hpox⟩ := concat_facts hB
+  have hoff : ∀ p ∈ l1' ++ l2, p.1 ≠ off' := by
+    intro p hp e
+    obtain ⟨sz, hu⟩ := hused p hp
+    rw [e, hfree] at hu; cases hu
+  have hx : off' ≠ x := by
+    intro e
+    obtain ⟨sz, r, hu⟩ := hB.x_used (by rw [← e]; exact h0)
+    rw [← e, hfree] at hu; cases hu
+  obtain ⟨hs1, hs2, hnd, hbk, hco, hoc⟩ := rew_common hB R hoff hx
+  have hd := (broken_data hB).rew R
+  have hnd2 : (((off', pr') :: l2).map (·.1)).Nodup := by
+    rw [List.map_append] at hnd
+    exact (List.nodup_append.1 hnd).2.1
+  exact {
+    npos := hB.npos
+    kwf := R.wf'
+    vwf := hB.vwf
+    heads_lt := hB.heads_lt
+    bits_ok := hB.bits_ok
+    b_lt := hB.b_lt
+    chains_other := hco
+    seg := hs1
+    old_free := ⟨hpo0, hfree'⟩
+    x_used := by
+      intro hx0
+      obtain ⟨sz, r, hu⟩ := hB.x_used hx0
+      rcases R.fwd x sz r hu with ⟨e, _⟩ | ⟨_, _, hu'⟩
+      · exact absurd e.symm hpox
+      · exact ⟨sz, r, hu'⟩
+    tail := ⟨h0, chain_of_seg kf' _ _ ⟨rfl, h0, R.used_off', by rw [hnext]; exact hs2⟩ hnd2⟩
+    nodup := hnd
+    bucket := hbk
+    on_chain := hoc
+    keys_ok := hd.keys_ok
+    keys_inj := hd.keys_inj
+    val_used := hd.val_used
+    val_inj := hd.val_inj
+    val_owned := hd.val_owned
+    count_ok := hd.count_ok.trans (usedCount_eq _).symm }
+
+end Relink
+open Relink
 
 /-- From a state whose bucket `b` chain is cut (`Broken`), `relink` terminates, restores the
 invariant, leaves the value file, the count and every record outside the leading segment `l1`
@@ -25,7 +559,39 @@ theorem relink_spec {kt : KeyType} {s : Store} {x b old new : Nat} {l1 l2 : List
     ∃ s', relink b fuel s old new = some s' ∧ InvX kt s' x ∧
       s'.vf = s.vf ∧ s'.count = s.count ∧ s'.n = s.n ∧
       (∀ k vo, HasKV s' k vo ↔ HasKV s k vo) ∧
-      (∀ o sz r, s.kf.used o = some (sz, r) → (∀ p ∈ l1, p.1 ≠ o) → s'.kf.used o = some (sz, r)) := by sorry
+      (∀ o sz r, s.kf.used o = some (sz, r) → (∀ p ∈ l1, p.1 ≠ o) → s'.kf.used o = some (sz, r)) := by
+  induction fuel generalizing s old new l1 l2 with
+  | zero => exact absurd hf (Nat.not_lt_zero _)
+  | succ fuel ih =>
+    rcases List.eq_nil_or_concat l1 with rfl | ⟨l1', ⟨po, pr⟩, rfl⟩
+    · obtain ⟨s', h1, h2, h3, h4, h5, h6, h7⟩ := relink_nil hB fuel
+      exact ⟨s', h1, h2, h3, h4, h5, h6, fun o sz r hu _ => h7 o sz r hu⟩
+    · rw [List.concat_eq_append] at hB hf ⊢
+      obtain ⟨sz, off', kf', hpred, hpo0, hget, hrew, R, hlen, hcase⟩ := relink_step hB
+      by_cases hoff : off' = po
+      · subst hoff
+        refine ⟨{ s with kf := kf' }, ?_, invx_inplace hB R rfl, rfl, rfl, rfl, R.hasKV s rfl, ?_⟩
+        · simp [relink, hpred, hpo0, hget, hrew]
+        · intro o sz1 r hu hne
+          rcases R.fwd o sz1 r hu with ⟨e, _⟩ | ⟨_, _, hu'⟩
+          · exact absurd e.symm (hne (_, pr) (by simp))
+          · exact hu'
+      · rcases hcase with h | ⟨_, h0, hfree, hfree'⟩
+        · exact absurd h hoff
+        have hB' := broken_moved hB R rfl h0 hfree hfree'
+        have hf' : l1'.length < fuel := by
+          rw [List.length_append] at hf
+          simp only [List.length_cons, List.length_nil] at hf
+          omega
+        obtain ⟨s'', hrel, hinv, hvf, hcnt, hn, hkv, hunt⟩ := ih hB' hf'
+        refine ⟨s'', ?_, hinv, hvf, hcnt, hn, ?_, ?_⟩
+        · simp [relink, hpred, hpo0, hget, hrew, hoff, hrel]
+        · intro k vo
+          exact (hkv k vo).trans (R.hasKV s rfl k vo)
+        · intro o sz1 r hu hne
+          rcases R.fwd o sz1 r hu with ⟨e, _⟩ | ⟨_, _, hu'⟩
+          · exact absurd e.symm (hne (_, pr) (by simp))
+          · exact hunt o sz1 r hu' (fun p hp => hne p (List.mem_append_left _ hp))
 
 end Store
 end Abyss
